@@ -393,11 +393,11 @@ func runWorker(exe, id, tier, unit, out string, deadline time.Time, seed int) *R
 	attempt := func() (*Result, string) {
 		os.Remove(out)
 		cmd := exec.Command(exe, "unit", id, tier, unit, out, strconv.FormatInt(deadline.Unix(), 10), strconv.Itoa(seed))
-		tmpd := out + ".tmp"
+		tmpd := filepath.Join(filepath.Dir(out), "w"+strings.TrimSuffix(filepath.Base(out), ".json"), "tmp")
 		os.MkdirAll(tmpd, 0755)
 		defer os.RemoveAll(tmpd)
 		// private TMPDIR on tmpfs: kevo serialises bloom filters through temp files and a shared on-disk /tmp serialises the workers
-		scr := out + ".scratch"
+		scr := filepath.Join(filepath.Dir(out), "w"+strings.TrimSuffix(filepath.Base(out), ".json"), "scratch")
 		os.MkdirAll(scr, 0755)
 		defer os.RemoveAll(scr)
 		cmd.Env = append(os.Environ(), "GOMAXPROCS=1", "GOGC=400", "TMPDIR="+tmpd, "VERIF_SCRATCH="+scr)
